@@ -719,7 +719,13 @@ func (r *reader) read(src []byte) {
 			r.mode = sharpNumMode
 			r.sharpNum = int(b - '0')
 		case sharpNumByte:
-			r.sharpNum = r.sharpNum*10 + int(b-'0')
+			// The count is a radix (at most 36) or an array rank (at most
+			// ArrayMaxRank). Once it is beyond both it is left as it is so
+			// that a long run of digits can not overflow the int and wrap
+			// around to a negative or a small, seemingly valid, number.
+			if r.sharpNum <= ArrayMaxRank {
+				r.sharpNum = r.sharpNum*10 + int(b-'0')
+			}
 		case radixByte:
 			r.tokenStart = r.pos + 1
 			r.mode = intMode
